@@ -63,6 +63,12 @@ type c11Case struct {
 	// proxy style headers naming another address: the TCP peer alone decides
 	Fwd       string `json:"fwd"` // "" | xff | xreal | both
 	FwdInside bool   `json:"fwd_inside"`
+	// Mint "http": the certificate comes out of the /v1/getRoleRequestingCert
+	// handler (automation administrator session) with Targets as the
+	// target_netblock values - which say where the role's workloads live and
+	// must not end up in the certificate; "" = minted through the library call
+	Mint    string     `json:"mint"`
+	Targets []c11Block `json:"targets"`
 }
 
 func c11GenBlock(t *rapid.T) c11Block {
@@ -86,12 +92,27 @@ func c11Gen(t *rapid.T) c11Case {
 		c.Fwd = rapid.SampledFrom([]string{"xff", "xreal", "both"}).Draw(t, "fwdLoop")
 	}
 	c.FwdInside = rapid.Bool().Draw(t, "fwdInside")
+	if rapid.IntRange(0, 2).Draw(t, "mintHTTP") == 0 {
+		c.Mint = "http"
+		nt := rapid.IntRange(1, 3).Draw(t, "ntargets")
+		for i := 0; i < nt; i++ {
+			c.Targets = append(c.Targets, c11GenBlock(t))
+		}
+		// the peer may sit in a target block instead of around a requestor one
+		if rapid.IntRange(0, 2).Draw(t, "peerInTarget") == 0 {
+			c.Peer.Kind = "target"
+			c.Peer.Block = rapid.IntRange(0, nt-1).Draw(t, "targetBlock")
+		}
+	}
 	return c
 }
 
 // c11PeerAddr resolves the peer spec to (remote address string, IPv4 value, isV4).
 func c11PeerAddr(c c11Case) (string, uint32, bool) {
-	b := c.Blocks[c.Peer.Block]
+	b := c.Blocks[c.Peer.Block%len(c.Blocks)]
+	if c.Peer.Kind == "target" && len(c.Targets) > 0 {
+		b = c.Targets[c.Peer.Block%len(c.Targets)]
+	}
 	mask := c11Mask(b.Prefix)
 	var ip uint32
 	switch c.Peer.Kind {
@@ -103,7 +124,7 @@ func c11PeerAddr(c c11Case) (string, uint32, bool) {
 		ip = b.Base - 1
 	case "above":
 		ip = (b.Base | ^mask) + 1
-	case "inside", "mapped":
+	case "inside", "mapped", "target":
 		ip = b.Base | (c.Peer.Rand & ^mask)
 	case "outside", "mapped-out":
 		// flip a bit inside the prefix (if any)
@@ -173,6 +194,7 @@ func c11World() *vWorld {
 			WebUIBackends:   []string{"password"},
 			Users:           map[string]string{vUserAlice: vPwAlice},
 			AutomationUsers: []string{vUserRobot},
+			AutomationAdmins: []string{"auto-admin"},
 			NoDB:            true,
 		})
 	}
@@ -195,13 +217,43 @@ func c11Check(c c11Case) *vResult {
 			}
 		}
 	}
-	b0 := c.Blocks[c.Peer.Block]
+	b0 := c.Blocks[c.Peer.Block%len(c.Blocks)]
 	boundary := c.Peer.Kind == "network" || c.Peer.Kind == "broadcast" || c.Peer.Kind == "below" || c.Peer.Kind == "above"
 	res.Desc = vJoin(fmt.Sprint(b0.Prefix), c.Peer.Kind, fmt.Sprint(len(c.Blocks)), c.Via, fmt.Sprint(inside), c.Fwd, fmt.Sprint(c.FwdInside))
 	res.NonTrivial = boundary || len(c.Blocks) > 1 || c.Fwd != ""
 	res.label("peer:"+c.Peer.Kind, "via:"+c.Via, fmt.Sprintf("inside:%v", inside))
 
-	cert := w.roleCert(vUserRobot, cidrs, vKey("p256", "c11client").Public(), 0)
+	var cert *x509.Certificate
+	if c.Mint == "http" {
+		res.NonTrivial = true
+		res.label("mint:http")
+		form := url.Values{"identity": {vUserRobot}, "pubkey": {vB64(vPKIX(vKey("p256", "c11client").Public()))}}
+		for _, cidr := range cidrs {
+			form.Add("requestor_netblock", cidr)
+		}
+		for _, b := range c.Targets {
+			form.Add("target_netblock", b.String())
+		}
+		mreq := vFormRequest("POST", getRoleRequestingPath, form)
+		vAddAuthCookie(mreq, w.authCookie("auto-admin", AuthTypePassword|AuthTypeU2F, 0))
+		mresp := vServe(w.state.roleRequetingCertGenHandler, mreq)
+		if mresp.Panic != "" {
+			res.violate("panic:mint", "handler panicked: %s", firstLine(mresp.Panic))
+			return res
+		}
+		if mresp.Code != 200 {
+			res.violate("mint-refused", "an automation administrator was refused a certificate for %v (targets %v): status %d", cidrs, c.Targets, mresp.Code)
+			return res
+		}
+		var err error
+		cert, err = vParsePEMCert(mresp.Body)
+		if err != nil {
+			res.violate("mint-undecodable", "mint 200 without certificate: %v", err)
+			return res
+		}
+	} else {
+		cert = w.roleCert(vUserRobot, cidrs, vKey("p256", "c11client").Public(), 0)
+	}
 	// read-back == minted
 	got, err := certgen.ExtractIPNetsFromIPRestrictedX509(cert)
 	if err != nil {
